@@ -159,7 +159,9 @@ def _process_underscored_property(cls: Type, under_f: str, val: property,
             if isinstance(v, Field):
                 fval = _process_field(cls, annotations, public_f, v)[0]
             else:
-                fval.default = v
+                # a plain default value: it replaces the (possibly
+                # `default_factory`) default derived from the annotation
+                fval = dataclass_field(default=v)
 
     # Wraps the `setter` for the property
     val = val.setter(_wrapper(val.fset, fval))
